@@ -52,11 +52,17 @@ inductive GrpcContract where
   | stopsAtDeadline   -- GracefulStop raced against ctx.Done(), then Stop() (repaired)
 deriving DecidableEq, Repr, BEq
 
-/-- One listener with the work that is in flight on it when shutdown begins (natural end ticks). -/
+/-- One listener with the work that is in flight on it when shutdown begins (natural end ticks).
+`hijacked` = websocket sessions on an http listener: `proxy/ws_handler.go` hijacks the connection, after which
+`http.Server` no longer knows it — its `Shutdown` neither waits for it nor closes it. -/
 structure Leaf where
   kind : Kind
   work : List Time
+  hijacked : List Time := []
 deriving Repr, BEq
+
+/-- everything in flight through a listener -/
+def Leaf.allWork (l : Leaf) : List Time := l.work ++ l.hijacked
 
 /-- A registered server: one listener, or the `https+tcp+sni` composite whose children share one outer
 listener. -/
@@ -97,6 +103,34 @@ def serverReturn (g : GrpcContract) (t0 wait : Nat) (s : Server) : Time :=
 /-- `proxy.Shutdown(wait)` at `t0` over the servers in the order the map iteration happened to yield. -/
 def shutdownReturn (g : GrpcContract) (t0 wait : Nat) (srvs : List Server) : Time :=
   maxReturn t0 (srvs.map (serverReturn g t0 wait))
+
+/-! ### Websocket sessions
+
+A websocket session runs on a hijacked connection. No server of the registry knows it, so the fan-out above does not
+wait for it. As shipped `proxy.Shutdown` did nothing about them (`WsContract.notWaitedFor`, D31); repaired, it counts
+the open sessions (`proxy/ws_sessions.go`) and waits for them in one more goroutine of the same WaitGroup, with the
+same timeout (`WsContract.waitedFor`). Sessions still open at the deadline are left alone, like active HTTP
+connections. -/
+
+inductive WsContract where
+  | notWaitedFor
+  | waitedFor
+deriving DecidableEq, Repr, BEq
+
+/-- every hijacked session of the process (the counter is package-wide, not per listener) -/
+def allHijacked (srvs : List Server) : List Time :=
+  srvs.flatMap (fun s => s.leaves.flatMap (·.hijacked))
+
+/-- return tick of the goroutine that waits for the websocket sessions -/
+def wsReturn (w : WsContract) (t0 wait : Nat) (hj : List Time) : Time :=
+  match w with
+  | .notWaitedFor => some t0
+  | .waitedFor => tmin (drain t0 hj) (some (t0 + wait))
+
+/-- `proxy.Shutdown(wait)` at `t0` as a whole: the servers' fan-out and the wait for the websocket sessions, one
+WaitGroup. -/
+def shutdownAll (w : WsContract) (g : GrpcContract) (t0 wait : Nat) (srvs : List Server) : Time :=
+  tmax (shutdownReturn g t0 wait srvs) (wsReturn w t0 wait (allHijacked srvs))
 
 /-- What happens to one piece of in-flight work. `open` = neither finished nor cut by the time its server's
 `Shutdown` has returned (net/http leaves active connections alone; they die with the process). -/
@@ -145,6 +179,41 @@ def shutdown (g : GrpcContract) (t0 wait : Nat) (reg : Registry) : ShutdownResul
     closed := reg.map (fun p => (p.1, listenersClosedAt t0 p.2))
     returns := reg.map (fun p => (p.1, serverReturn g t0 wait p.2))
     ret := shutdownReturn g t0 wait (reg.map (·.2)) }
+
+/-! ## Starting listeners (`proxy.ListenTCP` + `serve`)
+
+Every `ListenAndServe*` binds its address with one `net.ListenTCP` call — a busy address is an error handed back to
+the caller (main.go: `exit.Fatal`), there is no retry and no wait — and then `serve()` inserts the server into the
+registry under `mu` before it serves. A *start* is summarised by the tick at which that insert happens. -/
+
+inductive StartResult where
+  | registered | bindError
+deriving DecidableEq, Repr
+
+/-- one `ListenAndServe*` call against the registry -/
+def listenAndServe (busy : Bool) (addr : String) (srv : Server) (reg : Registry) : Registry × StartResult :=
+  if busy then (reg, .bindError) else (reg ++ [(addr, srv)], .registered)
+
+structure Start where
+  addr : String
+  srv : Server
+  /-- tick of the registry insert; `none` = the bind failed, the server never existed -/
+  registersAt : Option Nat
+deriving Repr
+
+/-- the snapshot `proxy.Shutdown` takes when it gets the lock at `t0`: the starts that had registered by then -/
+def snapshot (t0 : Nat) (starts : List Start) : Registry :=
+  starts.filterMap (fun s => match s.registersAt with
+    | some r => if r ≤ t0 then some (s.addr, s.srv) else none
+    | none => none)
+
+/-- does the listener of a start accept a connection at tick `t`, given one `proxy.Shutdown` at `t0`?
+Registered by `t0`: from its registration until `t0`. Registered later: from then on, for ever — it went into the
+fresh registry, which nothing shuts down. Bind failed: never. -/
+def startAccepts (t0 : Nat) (s : Start) (t : Nat) : Bool :=
+  match s.registersAt with
+  | none => false
+  | some r => if r ≤ t0 then decide (r ≤ t ∧ t < t0) else decide (r ≤ t)
 
 /-! ## The registry lock
 
@@ -196,6 +265,20 @@ def exitHandler (g : GrpcContract) (t0 wait : Nat) (p : Proc) : Proc × Shutdown
 def refresherTicks (stopsOnShutdown : Bool) (ports : List String) : Nat → Proc → Proc
   | 0, p => p
   | n + 1, p => refresherTicks stopsOnShutdown ports n (refresherTick stopsOnShutdown ports p)
+
+/-! ## The process: signal → exit handler → exit
+
+`main.go`: the exit handler (run by package `exit`, see `Model/C18Exit.lean`) sets `shuttingDown`, deregisters, sleeps
+the grace period and calls `proxy.Shutdown(wait)`; `main` returns from `exit.Wait()` when the handler has returned, and
+the process ends. Whatever is still open then is cut by the operating system. -/
+
+/-- tick at which the process ends: the handler starts at `s`, `proxy.Shutdown` at `s + grace` -/
+def processExit (w : WsContract) (g : GrpcContract) (s grace wait : Nat) (srvs : List Server) : Time :=
+  shutdownAll w g (s + grace) wait srvs
+
+/-- fate of a piece of work seen from outside the process -/
+def processFate (exit : Time) (e : Time) : Fate :=
+  if tle e exit then .completed else .cut
 
 /-! ## Classes observed by the correspondence -/
 
